@@ -456,6 +456,12 @@ func (w *World) checkTable(prop string, txn statedb.ReadTxn, tc *TableCtx, st *T
 		return false
 	}
 	if num != len(st.Objs) {
+		if w.prop == "C02" && tc.M.AbortedWrites > 0 {
+			// in a C02 run, after a write transaction on this table was aborted: "later transactions behave
+			// as if it had never run" covers the object count
+			w.violate("C02", "numobjects-after-abort", "%s table %s: NumObjects=%d want %d; %d write transaction(s) that had written to the table were aborted before", what, tc.M.Name, num, len(st.Objs), tc.M.AbortedWrites)
+			return false
+		}
 		w.violate("C04", "numobjects", "%s table %s: NumObjects=%d want %d", what, tc.M.Name, num, len(st.Objs))
 		return false
 	}
